@@ -590,7 +590,9 @@ const FORMS: &[Form] = &[
     Form { id: "inherent-path", generic: false, tick: "@N@::itick(x)", bump: "@N@::ibump(x, @K@)", total: "@N@::itotal(x)", dyn_param: false, inherent: 2 },
 ];
 
-fn sem_program(r: &SemRecv, pos: &(&str, &str, &str), f: &Form) -> Option<String> {
+/// the two generated pieces of an effect program: (helpers + the function `run` holding the call
+/// sites, `main`); the other two pieces are `TICK_TRAIT` and the receiver's `items`
+fn sem_pieces(r: &SemRecv, pos: &(&str, &str, &str), f: &Form) -> Option<(String, String)> {
     if f.dyn_param && !r.dyn_ok {
         return None;
     }
@@ -606,13 +608,12 @@ fn sem_program(r: &SemRecv, pos: &(&str, &str, &str), f: &Form) -> Option<String
         .replace("@BUMP2@", &sub(f.bump, "2"))
         .replace("@BUMP3@", &sub(f.bump, "3"))
         .replace("@TOTAL@", &sub(f.total, "0"));
-    let mut s = String::new();
-    s.push_str(TICK_TRAIT);
-    s.push_str(r.items);
-    s.push_str("fn consume(u: unit) -> int32 { 1 }\nfn add3(a: int32, b: int32, c: int32) -> int32 { a * 10000 + b * 100 + c }\n");
+    let mut run = String::new();
+    run.push_str("fn consume(u: unit) -> int32 { 1 }\nfn add3(a: int32, b: int32, c: int32) -> int32 { a * 10000 + b * 100 + c }\n");
     let pty = if f.dyn_param { "dyn Tick" } else if f.generic { "T" } else { r.ty_text };
-    let _ = writeln!(s, "fn run{}(x: {}, n: int32) -> {} {{ {} }}", if f.generic { "[T: Tick]" } else { "" }, pty, pos.1, body);
+    let _ = writeln!(run, "fn run{}(x: {}, n: int32) -> {} {{ {} }}", if f.generic { "[T: Tick]" } else { "" }, pty, pos.1, body);
     let arg = if f.dyn_param { "d" } else { "r" };
+    let mut s = String::new();
     let _ = writeln!(s, "fn main() -> unit {{");
     let _ = writeln!(s, "  {}", r.mk);
     if f.dyn_param {
@@ -624,7 +625,12 @@ fn sem_program(r: &SemRecv, pos: &(&str, &str, &str), f: &Form) -> Option<String
         let _ = writeln!(s, "  let v = run({}, 3);\n  let _ = string_println(\"result \" + int32_to_string(v));", arg);
     }
     let _ = writeln!(s, "  string_println(\"total \" + int32_to_string(Tick::total(r)))\n}}");
-    Some(s)
+    Some((run, s))
+}
+
+fn sem_program(r: &SemRecv, pos: &(&str, &str, &str), f: &Form) -> Option<String> {
+    let (run, main) = sem_pieces(r, pos, f)?;
+    Some(format!("{}{}{}{}", TICK_TRAIT, r.items, run, main))
 }
 
 
@@ -833,6 +839,152 @@ fn overlap_layouts(body: &str) -> Vec<(&'static str, Vec<(String, String)>)> {
     ]
 }
 
+// ------------------------------------------------------------------ one program distributed over packages
+//
+// Which environment a resolution site consults — the package being checked (`genv.current()`), the
+// package that defines the trait, the package that defines the receiver's type, the package holding
+// the impl — is a decision of its own at every site of every call form.  In a single package, and
+// in `all_in_lib`, all of them are ONE environment, so a site that asks the wrong one is invisible.
+// Here the pieces of one program are distributed over up to three packages in the ways the orphan
+// rule and the import graph (a library cannot import Main; no cycles) allow.
+
+/// top-level items of a source text: an item starts at a line that begins in column 0 with an item
+/// keyword and runs to the next such line
+fn top_level_items(text: &str) -> Vec<String> {
+    let mut items: Vec<String> = Vec::new();
+    for line in text.split_inclusive('\n') {
+        let starts = ["struct ", "enum ", "trait ", "impl ", "impl[", "fn ", "extern "].iter().any(|k| line.starts_with(k));
+        if starts || items.is_empty() {
+            items.push(String::new());
+        }
+        items.last_mut().unwrap().push_str(line);
+    }
+    items
+}
+
+/// the name an item declares (`struct X`, `enum X[T]`, `trait X`, `fn x[T](..)`); None for impls
+fn declared_name(item: &str) -> Option<String> {
+    for k in ["struct ", "enum ", "trait ", "fn "] {
+        if let Some(rest) = item.strip_prefix(k) {
+            let n: String = rest.chars().take_while(|c| c.is_ascii_alphanumeric() || *c == '_').collect();
+            return if n.is_empty() { None } else { Some(n) };
+        }
+    }
+    None
+}
+
+/// a piece of a program: the package it is placed in, the top-level names it declares, its text
+/// (written with unqualified names, as in the single-package program)
+struct Part {
+    pkg: &'static str,
+    names: Vec<String>,
+    text: String,
+}
+
+fn mentions(text: &str, names: &[String]) -> bool {
+    let ns: Vec<&str> = names.iter().map(|s| s.as_str()).collect();
+    qualify(text, "?", &ns) != text
+}
+
+/// the project: one file per package holding its parts in order, every name declared by a part of
+/// ANOTHER package written `Pkg::name`, and exactly the packages so mentioned imported
+fn distribute(parts: &[Part]) -> Vec<(String, String)> {
+    let mut pkgs: Vec<&str> = Vec::new();
+    for p in parts {
+        if !p.text.is_empty() && !pkgs.contains(&p.pkg) {
+            pkgs.push(p.pkg);
+        }
+    }
+    let mut files = Vec::new();
+    for pkg in &pkgs {
+        let mut body: String = parts.iter().filter(|p| p.pkg == *pkg).map(|p| p.text.as_str()).collect();
+        let mut imports = String::new();
+        for other in pkgs.iter().filter(|o| *o != pkg && **o != "Main") {
+            let names: Vec<&str> = parts.iter().filter(|p| p.pkg == *other).flat_map(|p| p.names.iter().map(|s| s.as_str())).collect();
+            let q = qualify(&body, other, &names);
+            if q != body {
+                let _ = writeln!(imports, "import {}", other);
+                body = q;
+            }
+        }
+        let rel = if *pkg == "Main" { "main.gom".to_string() } else { format!("{}/lib.gom", pkg) };
+        files.push((rel, format!("package {}\n{}\n{}", pkg, imports, body)));
+    }
+    files
+}
+
+/// (layout, package of: trait `Tick` / the receiver's types, their inherent impls and auxiliary
+/// traits / `impl Tick for ..` / the helpers and the function `run` holding the call sites);
+/// `main` (builds the receiver, coerces it for the dyn form, calls `run`, reads the total) is in Main
+const PLACEMENTS: &[(&str, [&str; 4])] = &[
+    ("items_in_lib", ["Lib", "Lib", "Lib", "Main"]),
+    ("trait_in_lib", ["Lib", "Main", "Main", "Main"]),
+    ("type_in_lib", ["Main", "Lib", "Main", "Main"]),
+    ("trait_below_type", ["Root", "Lib", "Lib", "Main"]),
+    ("type_below_trait", ["Lib", "Root", "Lib", "Main"]),
+    ("items_in_root_run_in_lib", ["Root", "Root", "Root", "Lib"]),
+    ("trait_below_type_and_run", ["Root", "Lib", "Lib", "Lib"]),
+    ("type_below_trait_and_run", ["Lib", "Root", "Lib", "Lib"]),
+    ("run_with_trait_in_lib", ["Lib", "Main", "Main", "Lib"]),
+];
+
+/// the effect program of (receiver, position, form) in one placement; None when the language rules
+/// exclude it (orphan rule; a library cannot name what Main declares) or the placement degenerates
+fn placed_sem_program(r: &SemRecv, pos: &(&str, &str, &str), f: &Form, pk: &[&'static str; 4]) -> Option<Vec<(String, String)>> {
+    let (run, main) = sem_pieces(r, pos, f)?;
+    let mut types = Part { pkg: pk[1], names: Vec::new(), text: String::new() };
+    let mut impls = Part { pkg: pk[2], names: Vec::new(), text: String::new() };
+    for it in top_level_items(r.items) {
+        if it.starts_with("impl Tick for ") {
+            impls.text.push_str(&it);
+        } else {
+            types.names.extend(declared_name(&it));
+            types.text.push_str(&it);
+        }
+    }
+    // orphan rule: an impl lives with its trait, or with its type when that is a nominal type
+    if pk[2] != pk[0] && !(r.nominal.is_some() && pk[2] == pk[1]) {
+        return None;
+    }
+    // the piece that distinguishes the placement does not exist for this receiver (primitive receiver)
+    if types.text.is_empty() && pk[1] != pk[0] && pk[1] != pk[2] && pk[1] != pk[3] {
+        return None;
+    }
+    // a library cannot import Main
+    let in_main_seen_from_lib = |user_pkg: &str, user_text: &str, decl_pkg: &str, names: &[String]| user_pkg != "Main" && decl_pkg == "Main" && mentions(user_text, names);
+    let tick = vec!["Tick".to_string()];
+    if in_main_seen_from_lib(pk[3], &run, pk[1], &types.names) || in_main_seen_from_lib(pk[3], &run, pk[0], &tick) || in_main_seen_from_lib(pk[2], &impls.text, pk[1], &types.names) || in_main_seen_from_lib(pk[2], &impls.text, pk[0], &tick) {
+        return None;
+    }
+    let parts = [
+        Part { pkg: pk[0], names: tick, text: TICK_TRAIT.to_string() },
+        types,
+        impls,
+        Part { pkg: pk[3], names: vec!["run".to_string(), "consume".to_string(), "add3".to_string()], text: run },
+        Part { pkg: "Main", names: Vec::new(), text: main },
+    ];
+    Some(distribute(&parts))
+}
+
+/// any single-package program with every declaration (types, traits, impls) in package Lib and its
+/// functions in Main; None when it declares nothing
+fn decls_in_library(src: &str) -> Option<Vec<(String, String)>> {
+    let mut decls = Part { pkg: "Lib", names: Vec::new(), text: String::new() };
+    let mut fns = Part { pkg: "Main", names: Vec::new(), text: String::new() };
+    for it in top_level_items(src) {
+        if it.starts_with("fn ") {
+            fns.text.push_str(&it);
+        } else {
+            decls.names.extend(declared_name(&it));
+            decls.text.push_str(&it);
+        }
+    }
+    if decls.text.is_empty() {
+        return None;
+    }
+    Some(distribute(&[decls, fns]))
+}
+
 fn compile_project(root: &std::path::Path, files: &[(String, String)]) -> (Outcome, String, String) {
     let _ = std::fs::remove_dir_all(root);
     let mut main_src = String::new();
@@ -959,6 +1111,28 @@ pub fn main_sem(args: &util::Args) {
             }
         }
     }
+    // … and the effect family with trait, types, impl and call sites in DIFFERENT packages: every
+    // placement × receiver gets a rotating share of the positions on quick, everything on thorough
+    let mut n_placed = 0usize;
+    let mut placed_layouts: std::collections::BTreeMap<&str, usize> = Default::default();
+    for (li, (layout, pk)) in PLACEMENTS.iter().enumerate() {
+        for (ri, r) in recvs.iter().enumerate() {
+            for (pi, pos) in POSITIONS.iter().enumerate() {
+                if args.tier != "thorough" && (li * 5 + ri * 3 + pi + args.seed as usize) % 9 != 0 {
+                    continue;
+                }
+                for f in FORMS {
+                    let Some(files) = placed_sem_program(r, pos, f, pk) else { continue };
+                    let pid = format!("sem/{}@{}/{}/{}", r.label, layout, pos.0, f.id);
+                    emit_project(&pid, &dir.join("proj"), &files, &mut out);
+                    n += 1;
+                    n_placed += 1;
+                    *placed_layouts.entry(layout).or_default() += 1;
+                }
+            }
+        }
+    }
+    let placed_summary = placed_layouts.iter().map(|(k, v)| format!("{}:{}", k, v)).collect::<Vec<_>>().join(",");
     for (id, src) in ovl {
         n += 1;
         match util::compile_text(&dir, &src) {
@@ -977,7 +1151,7 @@ pub fn main_sem(args: &util::Args) {
         }
     }
     let _ = std::fs::remove_dir_all(&dir);
-    let _ = writeln!(out, "#FEATS\treceivers={} positions={} forms={} overlap_scenarios={} overlap_programs={} in_library_packages={} programs={}", recvs.len(), POSITIONS.len(), FORMS.len(), OVERLAP_SCENARIOS.len(), n_ovl, n_pkg, n);
+    let _ = writeln!(out, "#FEATS\treceivers={} positions={} forms={} overlap_scenarios={} overlap_programs={} in_library_packages={} placements={} distributed_over_packages={} per_placement={} programs={}", recvs.len(), POSITIONS.len(), FORMS.len(), OVERLAP_SCENARIOS.len(), n_ovl, n_pkg, PLACEMENTS.len(), n_placed, placed_summary, n);
     std::fs::write(args.out.join("c17sem.cases.tsv"), out).expect("write");
     println!("c17sem programs={}", n);
 }
@@ -1062,6 +1236,18 @@ pub fn main(args: &util::Args) {
         };
         let _ = writeln!(out, "n{}\tNEG\t{}@lib\t{}\t{}\t{}", id, nid, want, esc_line(&oc), esc_line(&all));
         id += 1;
+        // … and with its declarations (types, traits, impls) in package Lib, its functions in Main:
+        // what is missing / ambiguous is then looked for in another package's environment
+        if let Some(files) = decls_in_library(src) {
+            let (outcome, _, all) = compile_project(&base.join(format!("nd{}", id)), &files);
+            let oc = match outcome {
+                Outcome::Ok(_) => "ok".to_string(),
+                Outcome::Err(stage, msgs) => format!("err:{}:{}", stage, msgs.join(" | ")),
+                Outcome::Panic(m) => format!("panic:{}", m),
+            };
+            let _ = writeln!(out, "n{}\tNEG\t{}@decls_in_lib\t{}\t{}\t{}", id, nid, want, esc_line(&oc), esc_line(&all));
+            id += 1;
+        }
     }
     for (xid, src, wants) in EXTRAS {
         let dir = base.join(format!("x{}", id));
